@@ -1,13 +1,19 @@
 """C07 Retry and Catch follow the States Language error-handling policy."""
-from contracts import handlers as H, engine as E, errors as ER
+from contracts import handlers as H, engine as E
 
 
 def build(P):
     P.category = "other"
     H.setup(P)
-    ER.callees(P.reg)
-    P.verify(E.NOTIFY + "handle_error", ER.handle_error_contract(), tags=("C07",), timeout=60)
-    # counter reset lives in change_state; the deferral of the retried attempt in the state entry points
+    # retry counters do not leak to the next state (change_state), the retried attempt is deferred by RetryTimeout (Task)
     P.verify(E.SE + "StateEngine.change_state", tags=("C07",))
     H.add_handlers(P, ("C07",))
-    P.explanation = "retry/catch"
+    P.native("retry-catch-policy", "natives.c07:retry_catch", kind="bounded", clause="C07:", timeout=900,
+             bound="Task state with every ordered list of <= 2 of 5 retriers (1 of the pairs at quick, by seed) and <= 1 (2 at "
+                   "thorough) of 3 catchers x 7 worker outcome sequences, in virtual time; plus counter-leak and unrecoverable-error "
+                   "cases; real StateEngine + TaskDispatcher against a reference policy")
+    P.explanation = ("Deductive: change_state deletes RetryCount / RetryTimeout before publishing the next state (counters do not "
+                     "leak), asl_state_Task defers the (re)start by exactly $$.State.RetryTimeout. The retrier / catcher scan of "
+                     "handle_error is NOT under a discharged contract (its obligations exceed the solver budgets: contract drafted in "
+                     "contracts/errors.py); it is exercised by the bounded stand-in.")
+    P.not_decided = ["handle_error's first-match / MaxAttempts / back-off / Error Output obligations: drafted, not discharged (bounded only)"]
